@@ -2,9 +2,11 @@ package main
 
 import (
 	"encoding/json"
+	"golang.org/x/tools/go/ssa"
 	"os"
 	"os/exec"
 	"path/filepath"
+	"runtime/debug"
 	"sort"
 	"strings"
 )
@@ -190,6 +192,7 @@ func runSelfTest(spec *PropSpec, root, verif string) []selfResult {
 					}
 					runRule(ru, p, sub)
 				}
+				dropCaches(p)
 			}
 			known, _ := loadKnown(filepath.Join(verif, "known_findings.json"))
 			kk := map[string]bool{}
@@ -220,4 +223,21 @@ func runSelfTest(spec *PropSpec, root, verif string) []selfResult {
 		res = append(res, sr)
 	}
 	return res
+}
+
+// dropCaches forgets everything memoised for a loaded variant: the thorough tier loads a few hundred scratch
+// copies in one process, and each retained Program keeps its syntax trees, type information and SSA alive.
+func dropCaches(p *Program) {
+	delete(anchorCache, p)
+	delete(asmWorldCache, p)
+	delete(effectsCache, p)
+	delete(touchDstCache, p)
+	delete(touchSrcCache, p)
+	delete(dstSetCache, p)
+	delete(srcSetCache, p)
+	returnsParamCache = map[*ssa.Function]map[int]bool{}
+	if activeProg == p {
+		activeProg = nil
+	}
+	debug.FreeOSMemory()
 }
